@@ -86,6 +86,10 @@ class _Instance:
                 raise RuntimeError(msg)
             return object.__setattr__(self, key, val)
         if key in self.__getattribute__("_specialcases"):  # Special case(s)
+            if is_connectable(val):
+                # A connectable is being assigned to one of our own fields: surely meant as a connection to a port of that name.
+                msg = f"Cannot connect port `{key}` of {self} by assignment, as `{key}` is an attribute of the instance itself. Use `connect`."
+                raise RuntimeError(msg)
             return object.__setattr__(self, key, val)
         _ = self.connect(key, val)  # Discard the returned `self`
         return None
